@@ -209,7 +209,7 @@ Proof.
   - pose proof (Z.div_mod pgn 256 ltac:(lia)). pose proof (Z.div_mod (pgn / 256) 256 ltac:(lia)).
     rewrite (Z.mod_small (pgn / 65536)) by (split; [apply Z.div_pos; lia|apply Z.div_lt_upper_bound; lia]).
     replace (pgn / 65536) with (pgn / 256 / 256) by (rewrite Z.div_div by lia; reflexivity). lia.
-  - apply Z.mod_unique with te; lia.
+  - symmetry. apply Z.mod_unique with te; lia.
   - symmetry. apply Z.div_unique with pe; lia.
 Qed.
 Lemma ack_length pgn pe te n cs : length (ack_start pgn pe te n ++ pack cs) = (6 + length (pack cs))%nat.
